@@ -378,7 +378,7 @@ mod verif_c15 {
         kani::cover!(keep == nf);
     }
 
-    // @harness id=C15 tier=quick timeout=1800 mem=10
+    // @harness id=C15 tier=thorough timeout=1800 mem=10
     // @bounds HumanFloatCount grouping with the number rendering replaced by "" + 1 symbolic digits: sign first, separators exactly every third digit from the right, fraction trimmed of trailing zeros
     #[kani::proof]
     #[kani::unwind(15)]
@@ -387,7 +387,7 @@ mod verif_c15 {
         grouping(false, 1, false, 0);
     }
 
-    // @harness id=C15 tier=thorough timeout=1800 mem=10
+    // @harness id=C15 tier=quick timeout=1800 mem=10
     // @bounds HumanFloatCount grouping with the number rendering replaced by "-" + 1 symbolic digits: sign first, separators exactly every third digit from the right, fraction trimmed of trailing zeros
     #[kani::proof]
     #[kani::unwind(15)]
@@ -396,7 +396,7 @@ mod verif_c15 {
         grouping(true, 1, false, 0);
     }
 
-    // @harness id=C15 tier=thorough timeout=1800 mem=10
+    // @harness id=C15 tier=quick timeout=1800 mem=10
     // @bounds HumanFloatCount grouping with the number rendering replaced by "" + 3 symbolic digits: sign first, separators exactly every third digit from the right, fraction trimmed of trailing zeros
     #[kani::proof]
     #[kani::unwind(15)]
@@ -405,7 +405,7 @@ mod verif_c15 {
         grouping(false, 3, false, 0);
     }
 
-    // @harness id=C15 tier=quick timeout=1800 mem=10
+    // @harness id=C15 tier=thorough timeout=1800 mem=10
     // @bounds HumanFloatCount grouping with the number rendering replaced by "-" + 3 symbolic digits: sign first, separators exactly every third digit from the right, fraction trimmed of trailing zeros
     #[kani::proof]
     #[kani::unwind(15)]
@@ -441,7 +441,7 @@ mod verif_c15 {
         grouping(false, 6, false, 0);
     }
 
-    // @harness id=C15 tier=quick timeout=1800 mem=10
+    // @harness id=C15 tier=thorough timeout=1800 mem=10
     // @bounds HumanFloatCount grouping with the number rendering replaced by "-" + 6 symbolic digits: sign first, separators exactly every third digit from the right, fraction trimmed of trailing zeros
     #[kani::proof]
     #[kani::unwind(15)]
@@ -477,7 +477,7 @@ mod verif_c15 {
         grouping(false, 4, true, 0);
     }
 
-    // @harness id=C15 tier=quick timeout=1800 mem=10
+    // @harness id=C15 tier=thorough timeout=1800 mem=10
     // @bounds HumanFloatCount grouping with the number rendering replaced by "" + 4 symbolic digits + '.' + 3 symbolic digits: sign first, separators exactly every third digit from the right, fraction trimmed of trailing zeros
     #[kani::proof]
     #[kani::unwind(15)]
@@ -495,7 +495,7 @@ mod verif_c15 {
         grouping(false, 3, true, 2);
     }
 
-    // @harness id=C15 tier=thorough timeout=1800 mem=10
+    // @harness id=C15 tier=quick timeout=1800 mem=10
     // @bounds HumanFloatCount grouping with the number rendering replaced by "-" + 4 symbolic digits + '.' + 0 symbolic digits: sign first, separators exactly every third digit from the right, fraction trimmed of trailing zeros
     #[kani::proof]
     #[kani::unwind(15)]
@@ -513,7 +513,7 @@ mod verif_c15 {
         grouping(true, 4, true, 3);
     }
 
-    // @harness id=C15 tier=thorough timeout=1800 mem=10
+    // @harness id=C15 tier=quick timeout=1800 mem=10
     // @bounds HumanFloatCount grouping with the number rendering replaced by "-" + 3 symbolic digits + '.' + 2 symbolic digits: sign first, separators exactly every third digit from the right, fraction trimmed of trailing zeros
     #[kani::proof]
     #[kani::unwind(15)]
